@@ -429,7 +429,7 @@ def check(ctx):
     pr = proof_gate(ctx, NEEDS)
     problem = proof_problem(pr)
     thorough = ctx.tier != "quick"
-    n_plain, n_comp = (2000, 240) if thorough else (56, 6)
+    n_plain, n_comp = (1200, 200) if thorough else (80, 6)
     if problem and not thorough:
         n_plain *= 4
     if ctx.replay:
@@ -476,9 +476,11 @@ def check(ctx):
         c, o = bad_cf[0]
         violation(ctx, write_replay(ctx, "counterexample", dict(what="FortranBackend._auto_param_indices leaves the closed form slot(i) = i+1 (i<9) | i+6",
                                                                  parameter_count=c["n"], implementation_output=o)))
-    if (bad_tr or dup) and not ctx.violations:
-        violation(ctx, write_replay(ctx, "correspondence", dict(broken="E2: regenerated Gallina function vs the Python function it was generated from"
-                                                                 if bad_tr else "unique-label generator handed out a label twice", inputs=(bad_tr or dup)[:3])), no_input=not dup)
+    if bad_tr and not ctx.violations:
+        violation(ctx, write_replay(ctx, "correspondence", dict(broken="E2: a regenerated Gallina function disagrees with the Python function it was generated from "
+                                                                        "(translator harness/py2v.py)", inputs=bad_tr[:3])), no_input=True)
+    if dup:   # label distinctness belongs to C01/C05 (LabelGenEquiv.unique_labels_distinct); reported here as a note only
+        ctx.note(f"unique-label generator handed out a label twice on {len(dup)} request lists, e.g. {dup[0]} (C01/C05: LabelGenEquiv)")
     nt = {canon({k: v for k, v in c.items() if k != "id"}) for c in cases if nontrivial(c)}
     hist = dict(parameter_counts=sorted({len(c["params"]) for c in cases}), crossing_reserved_range=sum(1 for c in cases if len(set(used_params(c))) >= 10),
                 compiled=sum(1 for c in cases if c["compile"]), with_unused_parameters=sum(1 for c in cases if len(set(used_params(c))) < len(c["params"])),
